@@ -107,22 +107,18 @@ theorem assign_name (defs : ListDefs) (name : String) (isNew isGlobal : Bool) (v
   split at h
   · simp only at h
     split at h
+    · cases h; exact setGlobal_name _ _ _
     · split at h
-      · cases h; exact setGlobal_name _ _ _
-      · split at h
-        · cases h; rfl
-        · cases h
-        · cases h
-    · cases h
-    · cases h
+      · cases h; rfl
+      · cases h
+      · cases h
   · split at h
-    · cases h
+    split at h
+    · cases h; exact setGlobal_name _ _ _
     · split at h
-      · cases h; exact setGlobal_name _ _ _
-      · split at h
-        · cases h; rfl
-        · cases h
-        · cases h
+      · cases h; rfl
+      · cases h
+      · cases h
 
 theorem incrementVisitCount_name (root : Obj) (a : Addr) (s' : Core) (h : s.incrementVisitCount root a = .ok s') :
     s'.flow.name = s.flow.name := by
